@@ -13,21 +13,26 @@ of the fitting routine, the simulator's recursion.
 """
 import numpy as np
 from common import Case, Failure, flist, parse_flist, clist, parse_clist, call, close_vec
+import ar_fam
 
 PID = 'C11'
 LEAN_TARGETS = ['Nitime.Props.C11']
-RULE = ('every routine is also run in call sequences on the same argument objects (>=3 evaluations, refilled arrays, fewer/more lags); the covariance helper (auto and cross), MAR_est_LWR and fit_model are also run on record lengths AT and AROUND implementation-size thresholds '
+RULE = ('session 3: the covariance helper, MAR_est_LWR, fit_model, generate_mar and the analyzer also on integer recordings (int16/int32/int64/uint8, mixed kinds for x and y; integer samples cross the protocol as integers: op ccovi, oracle in exact rational arithmetic), float32, big-endian, Fortran-ordered, strided (both axes) and read-only arrays; lwr_recursion on float32 / F-ordered / strided / read-only stacks; fit_model and GrangerAnalyzer for explicit order x max_order (larger, equal, smaller, 1, 0, None, default), order=None explicit, criterion default / AIC / corrected AIC / table; nlags None / omitted / = N; amplitudes 1e-150..1e150 judged against the same data scaled by an exact power of two; nearly collinear channels (cond to 1e9); a perturbation phase (other options, subclass analyzers, results overwritten) followed by a re-run of a sample of the cases on fresh objects; every routine is also run in call sequences on the same argument objects (>=3 evaluations, refilled arrays, fewer/more lags); the covariance helper (auto and cross), MAR_est_LWR and fit_model are also run on record lengths AT and AROUND implementation-size thresholds '
         '(every power of two 256..8192 exactly and within +-nlags of it, quick: one exact + one neighbour per power; thorough: all offsets around 2048/4096, decimal thresholds too; the Lean model is compared on all lags of sampled channel pairs, the oracle on every entry); '
         'GrangerAnalyzer objects are re-targeted with set_input (same shape / other length / other rate / other channel count) after reading a model-derived attribute and their order/autocov/model_coef/error_cov judged against the NEW data; '
         'cases from one PRNG state: covariance sequences estimated from coloured multichannel data (N 64..512, thorough ..4096) '
         'or exact covariances of drawn stable VAR processes; nc 1..6, P 1..8; channel permutations; covariance scales 1e-12..1e4; fit_model with fixed order 0..5 '
         'and BIC/AIC-selected order (max_order 10); generate_mar with a fixed numpy seed; distinct = distinct protocol line; '
         'block-Toeplitz systems with cond > 1e6 are skipped and counted')
-ASSUMPTIONS = ['real-valued data (lwr_recursion allocates real coefficient arrays)',
+ASSUMPTIONS = ['real-valued data (lwr_recursion allocates real coefficient arrays: complex recordings are outside the quantifier)',
+               'covariance STACKS handed to lwr_recursion are floating point (an integer-typed stack makes its work arrays integer: P = 1 works, P >= 2 raises UFuncTypeError; not generated) and native-endian (scipy.linalg.inv 1.18 misreads big-endian input)',
+               'integer recordings use (nearly) the full range of the narrow types (|x| <= 30000 int16, 250 uint8, 1e6 int32/int64): their products do not fit the type, the lagged averages must be formed in floating point',
+               'criterion-selected order only for amplitudes 1e-60..1e60 (beyond, det(ecov) leaves the binary64 range and BIC/AIC are +-inf)',
                'the two error covariances met along the recursion are invertible (hypothesis of lwr_solves); ill-conditioned cases skipped and counted',
                'R(0) symmetric',
                'positive-definiteness of the innovation covariance is NOT proved: per-run eigvalsh certificate whenever the block-Toeplitz matrix of the sequence is positive definite']
 TRUSTED_EXTRA = [
+    'the lag counts of MAR_est_LWR / fit_model and the shape of the criterion loop are GENERATED from the source (harness/translate_c11.py -> Generated/FitModel.lean); the theorems marEst_order, fitModel_reports_its_order, fitModel_loop_shape are about the generated definitions',
     'Float (complex binary64) instance `GSq CF n` of the list-of-rows matrix text approximates its `GSq ℂ n` instance (unproved; bounded by the 1e-8 comparison); that the ℂ instance IS the matrix recursion of the theorems is proved (lwrLoop_concrete, lwr_solves_concrete)',
     'GrangerAnalyzer as an object: `Model/GrangerObj.lean` (one-time attributes stored on first read, dropped by set_input) is tied to the class by the re-target sequences only (no translator pass over granger.py for C11)',
     'scipy.linalg.inv modelled by its contract inv(X)·X = I (hypothesis of the theorem); the driver uses Gauss–Jordan elimination, compared on every run',
@@ -84,6 +89,20 @@ def direct_crosscov(x, y, nl):
     return out
 
 
+def exact_crosscov(x, y, nl):
+    """the lagged averages of INTEGER samples in exact rational arithmetic (python ints / Fractions)"""
+    from fractions import Fraction
+    xi = [[int(v) for v in row] for row in np.asarray(x)]
+    yi = [[int(v) for v in row] for row in np.asarray(y)]
+    nc, N = len(xi), len(xi[0])
+    out = np.empty((nl, nc, nc))
+    for k in range(nl):
+        for i in range(nc):
+            for j in range(nc):
+                out[k, i, j] = float(Fraction(sum(xi[i][t + k] * yi[j][t] for t in range(N - k)), N - k))
+    return out
+
+
 def judge_gseq(m, impl, fail):
     """after every (re-)targeting the analyzer must describe the data it holds NOW: returned autocov =
     lagged average of the current pair rows, coefficients / covariance solve their block Yule–Walker
@@ -102,8 +121,8 @@ def judge_gseq(m, impl, fail):
         fresh = []
         for (i, j) in ij:
             try:
-                fresh.append(gr.fit_model(data[i], data[j], order=None if m['order'] < 0 else m['order'],
-                                          max_order=m['maxo'], criterion=ut_crit(m['crit'])))
+                dv = ar_fam.variant(data, st.get('dt'))
+                fresh.append(gr.fit_model(dv[i], dv[j], **fit_kwargs(m)))
             except ValueError:
                 fresh = None
                 break
@@ -126,13 +145,15 @@ def judge_gseq(m, impl, fail):
             if len(coef) != order or len(Rxx) != order + 1:
                 return fail(tag + 'order-reported', '%s: reported order %d, %d coefficient matrices, %d lags' % (where, order, len(coef), len(Rxx)))
             want = direct_autocov(x, order + 1)
-            if np.abs(Rxx - want).max() > 1e-9 * np.abs(want).max():
+            if np.abs(Rxx - want).max() > 1e-9 * ar_fam.tol_factor(st.get('dt')) * np.abs(want).max():
                 return fail(tag + 'autocov', '%s: reported autocov is not the lagged covariance of the data the analyzer holds (off by %.3g, scale %.3g)'
                             % (where, np.abs(Rxx - want).max(), np.abs(want).max()))
-            f = check_solution(want, coef, ecov, fail, tag=tag)
+            f = check_solution(want, coef, ecov, fail, tag=tag, prec=ar_fam.tol_factor(st.get('dt')))
             if f:
                 f.what = where + ': ' + f.what
                 return f
+            if m['order'] >= 0 and order != m['order']:
+                return fail(tag + 'order-requested', '%s: order %d requested, %d reported' % (where, m['order'], order))
             if order != int(fresh[q][0]):
                 return fail(tag + 'order-selected', '%s: reported order %d, a fresh fit_model call on the current rows gives %d' % (where, order, int(fresh[q][0])))
     return None
@@ -174,26 +195,59 @@ def rflat(r):
     return clist(np.asarray(r).reshape(-1))
 
 
+def xf_of(m, key='x'):
+    """the float64 VALUES of a data field (what the model line and the oracle's expectation are about)"""
+    return np.array(parse_flist(m[key])).reshape(m['nc'], -1)
+
+
+def xv_of(m, key='x'):
+    """what the implementation is handed: the same values in the representation `m['dt']` (`m['dty']` for y);
+    a fresh object on every call"""
+    return ar_fam.variant(xf_of(m, key), m.get('dty' if key == 'y' else 'dt'))
+
+
+def tolf(m):
+    """single-precision representations are judged at single precision"""
+    return ar_fam.tol_factor(m.get('dt'), m.get('dty'))
+
+
+def opt_int(v):
+    """protocol convention for python's `int or None`: negative = None"""
+    return None if v is None or v < 0 else int(v)
+
+
+def fit_kwargs(m, crit=None):
+    """keyword arguments of fit_model / GrangerAnalyzer for a case (criterion left at its default when asked)"""
+    kw = {}
+    if opt_int(m['order']) is not None or m.get('order_explicit_none'):
+        kw['order'] = opt_int(m['order'])
+    if not m.get('maxo_default'):
+        kw['max_order'] = opt_int(m['maxo'])
+    if not m.get('crit_default'):
+        kw['criterion'] = crit if crit is not None else ut_crit(m['crit'])
+    return kw
+
+
 # ------------------------------------------------------------------ implementation adapter
 def run_impl(m):
     ar, ut, gr = mods()
     op = m['op']
     if op == 'lwr':
-        r = np.array(parse_flist(m['r'])).reshape(-1, m['nc'], m['nc'])
+        r = ar_fam.variant(np.array(parse_flist(m['r'])).reshape(-1, m['nc'], m['nc']), m.get('dt'))
         return call(lambda: (ar.lwr_recursion(r), (lambda a, s: 'ok %s %s' % (rflat(a), rflat(s)))(*ar.lwr_recursion(r)))[1])
     if op == 'gseq':
         return call(lambda: run_gseq(m))
-    x = np.array(parse_flist(m['x'])).reshape(m['nc'], -1) if 'x' in m else None
+    x = xv_of(m) if 'x' in m else None
     if op in ('acovs', 'ccovs'):
         def f():
-            if op == 'acovs':
-                full = ut.autocov_vector(x, nlags=m['nl'])
-            else:
-                full = ut.crosscov_vector(x, np.array(parse_flist(m['y'])).reshape(m['nc'], -1), nlags=m['nl'])
+            full = cov_call(m, x, None if op == 'acovs' else xv_of(m, 'y'))
             return 'ok ' + clist([full[i, j, k] for (i, j) in m['pairs'] for k in range(m['nl'])])
         return call(f)
-    if op == 'acov':
-        return call(lambda: (ut.autocov_vector(x, nlags=m['nl']), 'ok ' + rflat(ut.autocov_vector(x, nlags=m['nl']).transpose(2, 0, 1)))[1])
+    if op in ('acov', 'ccovi'):
+        def f():
+            full = cov_call(m, x, xv_of(m, 'y') if 'y' in m else None)
+            return 'ok ' + rflat(np.asarray(full).transpose(2, 0, 1))
+        return call(lambda: (f(), f())[1])
     if op == 'mar':
         return call(lambda: (ar.MAR_est_LWR(x, m['order']), (lambda a, s: 'ok %s %s' % (rflat(a), rflat(s)))(*ar.MAR_est_LWR(x, m['order'])))[1])
     if op == 'fitc':
@@ -204,16 +258,15 @@ def run_impl(m):
             return 'ok %d %s %s %s' % (int(o), rflat(np.asarray(Rxx).transpose(2, 0, 1)), rflat(coef), rflat(ecov))
         return call(f)
     if op == 'fit':
-        crit = {'bic': ut.bayesian_information_criterion, 'aic': ut.akaike_information_criterion}[m['crit']]
-
         def f():
-            o, Rxx, coef, ecov = gr.fit_model(x[0], x[1], order=None if m['order'] < 0 else m['order'],
-                                              max_order=m['maxo'], criterion=crit)
+            x1 = x[0] if 'dt2' not in m else ar_fam.variant(xf_of(m)[0], m['dt'])
+            x2 = x[1] if 'dt2' not in m else ar_fam.variant(xf_of(m)[1], m['dt2'])
+            o, Rxx, coef, ecov = gr.fit_model(x1, x2, **fit_kwargs(m))
             return 'ok %d %s %s %s' % (int(o), rflat(np.asarray(Rxx).transpose(2, 0, 1)), rflat(coef), rflat(ecov))
         return call(f)
     if op == 'gmar':
-        a = np.array(parse_flist(m['a'])).reshape(-1, m['nc'], m['nc'])
-        cov = np.array(parse_flist(m['cov'])).reshape(m['nc'], m['nc'])
+        a = ar_fam.variant(np.array(parse_flist(m['a'])).reshape(-1, m['nc'], m['nc']), m.get('dt'))
+        cov = ar_fam.variant(np.array(parse_flist(m['cov'])).reshape(m['nc'], m['nc']), m.get('dtc'))
 
         def f():
             np.random.seed(m['seed'])
@@ -221,6 +274,14 @@ def run_impl(m):
             return 'ok ' + rflat(mar.T)
         return call(f)
     raise ValueError(op)
+
+
+def cov_call(m, x, y):
+    """autocov_vector(x) / crosscov_vector(x, y) with nlags given, given as None, or left out (both mean "all N lags";
+    such a case carries nl = N)"""
+    _, ut, _ = mods()
+    kw = {} if m.get('nl_default') else {'nlags': None if m.get('nl_none') else m['nl']}
+    return ut.autocov_vector(x, **kw) if y is None else ut.crosscov_vector(x, y, **kw)
 
 
 def default_ij(n):
@@ -236,16 +297,16 @@ def gseq_objects(m):
     """the analyzer of a re-target sequence and its inputs"""
     _, _, gr = mods()
     import nitime.timeseries as ts
-    inputs = [ts.TimeSeries(np.array(parse_flist(st['data'])).reshape(st['nproc'], -1), sampling_rate=st['Fs'])
+    inputs = [ts.TimeSeries(ar_fam.variant(np.array(parse_flist(st['data'])).reshape(st['nproc'], -1), st.get('dt')), sampling_rate=st['Fs'])
               for st in m['steps']]
-    crit = {'bic': ut_crit('bic'), 'aic': ut_crit('aic')}[m['crit']]
-    G = gr.GrangerAnalyzer(inputs[0], ij=None if m['ij'] is None else [tuple(q) for q in m['ij']],
-                           order=None if m['order'] < 0 else m['order'], max_order=m['maxo'], criterion=crit, n_freqs=16)
+    G = gr.GrangerAnalyzer(inputs[0], ij=None if m['ij'] is None else [tuple(q) for q in m['ij']], n_freqs=16, **fit_kwargs(m))
     return G, inputs
 
 
 def ut_crit(name):
     _, ut, _ = mods()
+    if name == 'aicc':          # the optional `corrected` argument of the AIC, bound by the caller
+        return lambda ecov, p, m, Ntotal: ut.akaike_information_criterion(ecov, p, m, Ntotal, corrected=True)
     return {'bic': ut.bayesian_information_criterion, 'aic': ut.akaike_information_criterion}[name]
 
 
@@ -293,6 +354,10 @@ def line_of(m):
         return 'C11 acov %d %d %s' % (m['nc'], m['nl'], clist(parse_flist(m['x'])))
     if op == 'mar':
         return 'C11 mar %d %d %s' % (m['nc'], m['order'], clist(parse_flist(m['x'])))
+    if op == 'ccovi':      # integer-typed recordings: the samples cross the protocol as integers, the model embeds them
+        xi = ','.join(str(int(v)) for v in parse_flist(m['x']))
+        yi = ','.join(str(int(v)) for v in parse_flist(m['y'])) if 'y' in m else xi
+        return 'C11 ccovi %d %d %s %s' % (m['nc'], m['nl'], xi, yi)
     if op == 'fit':
         return 'C11 fit %s %d %d %s' % (m['crit'], m['order'], m['maxo'], clist(parse_flist(m['x'])))
     if op == 'fitc':
@@ -310,7 +375,7 @@ def line_of(m):
         return 'C11 gseq %s %d %d %s' % (m['crit'], m['order'], m['maxo'], ' '.join(toks))
 
 
-def cmp_groups(n_exact=0, rtol=1e-8):
+def cmp_groups(n_exact=0, rtol=1e-8, atol=1e-300):
     def f(impl, model):
         if not (impl.startswith('ok ') and model.startswith('ok ')):
             return impl == model
@@ -319,7 +384,7 @@ def cmp_groups(n_exact=0, rtol=1e-8):
             return False
         fl = lambda zs: [t for z in zs for t in (z.real, z.imag)]
         for x, y in zip(a[n_exact:], b[n_exact:]):
-            if not close_vec(fl(parse_clist(x)), fl(parse_clist(y)), rtol, 1e-300):
+            if not close_vec(fl(parse_clist(x)), fl(parse_clist(y)), rtol, atol):
                 return False
         return True
     return f
@@ -345,17 +410,20 @@ def cmp_tokens(rtol=1e-8):
 
 
 # ------------------------------------------------------------------ the property, judged on the implementation
-def check_solution(r, a, sigma, fail, tag=''):
+def check_solution(r, a, sigma, fail, tag='', prec=1.0):
     """block Yule–Walker for the order len(a): Σ_{i=0..P} A(i) R(k-i) = 0 (k=1..P), Σ = Σ_i A(i) R(-i)"""
     P = len(a)
     nc = r.shape[1]
+    s0 = float(np.abs(r[0]).max())
+    if s0 > 0 and np.isfinite(s0) and not 1e-100 < s0 < 1e100:      # the equations are homogeneous in R: judge them at scale 1
+        r, sigma = r / s0, np.asarray(sigma) / s0
     if r.shape[0] < P + 1:
         return fail(tag + 'shape', 'need %d lags for %d coefficient matrices, have %d' % (P + 1, P, r.shape[0]))
     A = [np.eye(nc)] + list(a)
     T = block_toeplitz(r, P)
     cond = np.linalg.cond(T)
     sc = np.abs(T).sum(axis=1).max() * max(1.0, max(np.abs(Ai).max() for Ai in A))
-    tol = 1e-9 * sc * max(1.0, cond * 1e-3)
+    tol = 1e-9 * sc * max(1.0, cond * 1e-3) * prec
     for k in range(1, P + 1):
         res = sum(A[i].dot(R_of(r, k - i)) for i in range(P + 1))
         if np.abs(res).max() > tol:
@@ -384,10 +452,10 @@ def judge_value(m, impl, clause):
         return Failure('%s/%s' % (clause, sym), '%s: %s [op %s]' % (clause, what, op), {'meta': m, 'clause': clause})
     if op in ('acovs', 'ccovs'):
         # the oracle looks at EVERY entry of a fresh call, not only at the sampled pairs
-        x = np.array(parse_flist(m['x'])).reshape(m['nc'], -1)
-        y = x if op == 'acovs' else np.array(parse_flist(m['y'])).reshape(m['nc'], -1)
+        x = xf_of(m)
+        y = x if op == 'acovs' else xf_of(m, 'y')
         try:
-            got = ut.autocov_vector(x, nlags=m['nl']) if op == 'acovs' else ut.crosscov_vector(x, y, nlags=m['nl'])
+            got = cov_call(m, xv_of(m), None if op == 'acovs' else xv_of(m, 'y'))
         except Exception as e:  # noqa
             return fail('raises', 'valid input rejected: %s' % type(e).__name__)
         want = direct_crosscov(x, y, m['nl'])
@@ -395,14 +463,14 @@ def judge_value(m, impl, clause):
         if got.shape != want.shape:
             return fail('shape', 'shape %r, expected %r' % (got.shape, want.shape))
         err = np.abs(got - want).max()
-        if not err <= 1e-9 * np.abs(want).max():
+        if not err <= 1e-9 * tolf(m) * np.abs(want).max():
             k = int(np.unravel_index(np.argmax(np.abs(got - want)), want.shape)[0])
             return fail('value', 'covariance helper differs from mean_t x_i[t+k] y_j[t] by %.3g (scale %.3g) at lag %d for N=%d, nlags=%d'
                         % (err, np.abs(want).max(), k, x.shape[1], m['nl']))
         if impl.startswith('ok'):
             smp = np.array(parse_clist(impl.split()[1]))
             ws = np.array([want[k, i, j] for (i, j) in m['pairs'] for k in range(m['nl'])])
-            if smp.shape != ws.shape or not np.abs(smp - ws).max() <= 1e-9 * np.abs(want).max():
+            if smp.shape != ws.shape or not np.abs(smp - ws).max() <= 1e-9 * tolf(m) * np.abs(want).max():
                 return fail('value', 'sampled entries differ from the lagged average')
             return None
         return fail('raises', 'valid input rejected: ' + impl)
@@ -433,7 +501,13 @@ def judge_value(m, impl, clause):
         a, sigma = mats(g[0]), mats(g[1])[0]
         if len(a) != r.shape[0] - 1:
             return fail('shape', '%d coefficient matrices for %d lags' % (len(a), r.shape[0]))
-        f = check_solution(r, a, sigma, fail)
+        f = check_solution(r, a, sigma, fail, prec=tolf(m))
+        if not f and 'pow2' in m:       # the equations are homogeneous: R·2^k gives the SAME coefficients and Σ·2^k (exact scaling)
+            a2, s2 = ar.lwr_recursion(ar_fam.variant(r * 2.0 ** m['pow2'], m.get('dt')))
+            if np.abs(a2 - a).max() > 1e-9 * max(1.0, np.abs(a).max()) or np.abs(s2 / 2.0 ** m['pow2'] - sigma).max() > 1e-9 * np.abs(r[0]).max():
+                return fail('scale-invariance', 'covariances scaled by 2^%d: coefficients change by %.3g' % (m['pow2'], np.abs(a2 - a).max()))
+        if tolf(m) > 1:
+            return f
         if f:
             return f
         if nc == 1:     # reduction to the scalar estimator (documented sign convention: a_lwr = -a_ld)
@@ -456,12 +530,14 @@ def judge_value(m, impl, clause):
             if len(a) >= len(tA) and np.abs(a[:k] - tA[:k]).max() > 1e-6 * max(1.0, np.abs(tA).max()):
                 return fail('recovery', 'exact covariances of a stable VAR: coefficients off by %.3g' % np.abs(a[:k] - tA[:k]).max())
         return None
-    x = np.array(parse_flist(m['x'])).reshape(nc, -1) if 'x' in m else None
-    if op == 'acov':
+    x = xf_of(m) if 'x' in m else None
+    if op in ('acov', 'ccovi'):
         got = mats(g[0])
-        want = direct_autocov(x, m['nl'])
-        if got.shape != want.shape or np.abs(got - want).max() > 1e-9 * np.abs(want[0]).max():
-            return fail('value', 'autocov_vector differs from mean_t x_i[t+k] x_j[t] by %.3g' % (np.abs(got - want).max() if got.shape == want.shape else -1))
+        y = xf_of(m, 'y') if 'y' in m else x
+        want = exact_crosscov(x, y, m['nl']) if op == 'ccovi' else direct_crosscov(x, y, m['nl'])
+        if got.shape != want.shape or not np.abs(got - want).max() <= 1e-9 * tolf(m) * np.abs(want[0]).max():
+            return fail('value', 'covariance helper differs from mean_t x_i[t+k] y_j[t] by %.3g (scale %.3g; dtypes %s/%s)'
+                        % (np.abs(got - want).max() if got.shape == want.shape else -1, np.abs(want[0]).max(), m.get('dt', 'float64'), m.get('dty', m.get('dt', 'float64'))))
         return None
     if op == 'mar':
         a, sigma = mats(g[0]), mats(g[1])[0]
@@ -469,7 +545,12 @@ def judge_value(m, impl, clause):
             f = fail('order-off-by-one', 'MAR_est_LWR(order=%d) returned %d coefficient matrices' % (m['order'], len(a)))
             f.key = 'mar/order-off-by-one'
             return f
-        return check_solution(direct_autocov(x, m['order'] + 1), a, sigma, fail)
+        f = check_solution(direct_autocov(x, m['order'] + 1), a, sigma, fail, prec=tolf(m))
+        if not f and 'pow2' in m:       # x·2^k (exact): same coefficients, Σ·4^k
+            a2, s2 = ar.MAR_est_LWR(ar_fam.variant(x * 2.0 ** m['pow2'], m.get('dt')), m['order'])
+            if np.abs(a2 - a).max() > 1e-9 * max(1.0, np.abs(a).max()) or np.abs(s2 / 4.0 ** m['pow2'] - sigma).max() > 1e-9 * np.abs(sigma).max():
+                return fail('scale-invariance', 'data scaled by 2^%d: coefficients change by %.3g' % (m['pow2'], np.abs(a2 - a).max()))
+        return f
     if op in ('fit', 'fitc'):
         order = int(g[0])
         Rxx, coef, ecov = mats(g[1]), mats(g[2]), mats(g[3])[0]
@@ -478,9 +559,9 @@ def judge_value(m, impl, clause):
         if len(Rxx) != order + 1:
             return fail('lags-reported', 'reported order %d but %d covariance lags' % (order, len(Rxx)))
         want = direct_autocov(x, order + 1)
-        if np.abs(Rxx - want).max() > 1e-9 * np.abs(want).max():
+        if np.abs(Rxx - want).max() > 1e-9 * tolf(m) * np.abs(want).max():
             return fail('autocov', 'returned Rxx is not the lagged covariance of the data')
-        f = check_solution(want, coef, ecov, fail)
+        f = check_solution(want, coef, ecov, fail, prec=tolf(m))
         if f:
             return f
         if op == 'fitc':
@@ -492,12 +573,13 @@ def judge_value(m, impl, clause):
         # criterion-selected: the reported order is the last one before the criterion rises
         N = x.shape[1]
         seen = []
-        real = {'bic': ut.bayesian_information_criterion, 'aic': ut.akaike_information_criterion}[m['crit']]
+        real = ut_crit(m['crit'])
 
         def spy(ecov_, p_, m_, nt_):
             seen.append((int(p_), int(m_), int(nt_), np.asarray(ecov_).shape))
             return real(ecov_, p_, m_, nt_)
-        gr.fit_model(x[0], x[1], max_order=m['maxo'], criterion=spy)
+        xv = xv_of(m)
+        gr.fit_model(xv[0], xv[1], **dict(fit_kwargs(m), criterion=spy))
         for k, (p_, m_, nt_, shp) in enumerate(seen):
             if (p_, m_, nt_, shp) != (2, k, 2 * N, (2, 2)):
                 return fail('criterion-arguments', 'criterion called with (p=%d, m=%d, Ntotal=%d) at the order-%d fit of %d-sample data' % (p_, m_, nt_, k, N))
@@ -506,7 +588,8 @@ def judge_value(m, impl, clause):
             r = direct_autocov(x, o + 1)
             a, s = solve_dense(r, o)
             pen = np.log(2 * N) if m['crit'] == 'bic' else 1.0
-            return 2 * np.log(np.linalg.det(s)) + 2 * 4 * o * pen / (2 * N)
+            extra = 2.0 * o * (o + 1) / (2 * N - o - 1) if m['crit'] == 'aicc' else 0.0
+            return 2 * np.log(np.linalg.det(s)) + 2 * 4 * o * pen / (2 * N) + extra
         cs = [crit(o) for o in range(0, order + 2)]
         margin = 1e-9 * max(1.0, max(abs(c) for c in cs))
         if any(cs[o + 1] > cs[o] + margin for o in range(order)):
@@ -545,19 +628,20 @@ def sequence_judge(m, clause):
                        {'meta': m, 'clause': clause})
     syms = []
     if op == 'lwr':
-        r = np.array(parse_flist(m['r'])).reshape(-1, nc, nc)
+        r = ar_fam.variant(np.array(parse_flist(m['r'])).reshape(-1, nc, nc), m.get('dt'))
         syms = ar_seq.run_schedule({'lwr': lambda: ar.lwr_recursion(r)}, ['lwr'] * 3, [r])
         if not syms:
-            syms = ar_seq.refill_check(lambda arr, _: ar.lwr_recursion(arr), r, r * 0.5 + 0.1 * np.eye(nc), [0])
-    elif op in ('acov', 'mar', 'fit', 'fitc'):
-        x = np.array(parse_flist(m['x'])).reshape(nc, -1)
-        x2 = x[::-1, ::-1].copy() * 0.7 + 0.01
-        if op == 'acov':
+            syms = ar_seq.refill_check(lambda arr, _: ar.lwr_recursion(arr), r, r * 0.5 + 0.1 * float(np.abs(r[0]).max()) * np.eye(nc), [0])
+    elif op in ('acov', 'ccovi', 'mar', 'fit', 'fitc'):
+        x = xv_of(m)
+        x2 = x[::-1, ::-1].copy() * 0.7 + 0.01 * float(np.abs(x).max()) if x.dtype.kind == 'f' else x[::-1, ::-1].copy()
+        if op in ('acov', 'ccovi'):
             nl = m['nl']
             syms = ar_seq.run_schedule({'acov': lambda: ut.autocov_vector(x, nlags=nl),
                                         'ccov': lambda: ut.crosscov_vector(x, x, nlags=nl)}, ['acov', 'ccov', 'acov', 'ccov', 'acov'], [x])
             if not syms:
-                syms = ar_seq.refill_check(lambda arr, k: ut.autocov_vector(arr, nlags=k), x, x2, [nl, max(1, nl - 1), nl + 1])
+                syms = ar_seq.refill_check(lambda arr, k: ut.autocov_vector(arr, nlags=k), x, x2,
+                                           [nl, max(1, nl - 1)] + ([nl + 1] if nl < x.shape[1] else []))
         elif op == 'mar':
             o = m['order']
             syms = ar_seq.run_schedule({'mar': lambda: ar.MAR_est_LWR(x, o), 'acov': lambda: ut.autocov_vector(x, nlags=o + 1)},
@@ -570,8 +654,7 @@ def sequence_judge(m, clause):
                 crit = lambda ecov, p, mm, nt: tbl[mm]
                 kw = dict(max_order=m['maxo'], criterion=crit)
             else:
-                crit = {'bic': ut.bayesian_information_criterion, 'aic': ut.akaike_information_criterion}[m['crit']]
-                kw = dict(order=None if m['order'] < 0 else m['order'], max_order=m['maxo'], criterion=crit)
+                kw = fit_kwargs(m)
 
             def fit(arr):
                 try:
@@ -582,14 +665,14 @@ def sequence_judge(m, clause):
             if not syms:
                 syms = ar_seq.refill_check(lambda arr, _: fit(arr), x, x2, [0])
     elif op in ('acovs', 'ccovs'):
-        x = np.array(parse_flist(m['x'])).reshape(nc, -1)
-        y = x if op == 'acovs' else np.array(parse_flist(m['y'])).reshape(nc, -1)
+        x = xv_of(m)
+        y = x if op == 'acovs' else xv_of(m, 'y')
         nl = m['nl']
         syms = ar_seq.run_schedule({'ccov': lambda: ut.crosscov_vector(x, y, nlags=nl),
                                     'acov': lambda: ut.autocov_vector(x, nlags=nl)}, ['ccov', 'acov', 'ccov', 'acov', 'ccov'], [x, y])
     elif op == 'gmar':
-        a = np.array(parse_flist(m['a'])).reshape(-1, nc, nc)
-        cov = np.array(parse_flist(m['cov'])).reshape(nc, nc)
+        a = ar_fam.variant(np.array(parse_flist(m['a'])).reshape(-1, nc, nc), m.get('dt'))
+        cov = ar_fam.variant(np.array(parse_flist(m['cov'])).reshape(nc, nc), m.get('dtc'))
 
         def g():
             np.random.seed(m['seed'])
@@ -811,6 +894,261 @@ def cases(rng, tier, seed):
         m = {'op': 'gmar', 'nc': nc, 'a': flist((-A).reshape(-1)), 'cov': flist(cov.reshape(-1)),
              'N': int(nrng.choice([1, 2, 3, 5, 10, 40])), 'seed': int(nrng.randint(0, 2**31 - 1))}
         out.append(mk_case(m, 'generate_mar', cmp_groups(rtol=1e-9)))
+    out += family_cases(nrng, big)
+    out += option_cases(nrng, big)
+    out += boundary_cases(nrng, big)
+    out += rerun_cases(nrng, out, big)
+    return out
+
+
+# ------------------------------------------------------------------ session 3: input families, options, boundaries, histories
+ALL_KINDS = list(ar_fam.INT_KINDS) + ['float32'] + list(ar_fam.LAYOUT_KINDS)
+
+
+def family_cases(nrng, big):
+    """L1: every entry point on data that are not float64 C-contiguous: integer recordings (int16/int32/int64/uint8),
+    float32, big-endian, Fortran-ordered, strided (both axes) and read-only arrays.  The model line and the oracle
+    work from the values converted to float64 (exact)."""
+    out = []
+    reps = 1 if not big else 6
+    for rep in range(reps):
+        for kind in ALL_KINDS:
+            cmp_tol = 1e-9 * ar_fam.tol_factor(kind)
+            nc = int(nrng.randint(1, 4))
+            N = int(nrng.choice([64, 97, 128]))
+            x = ar_fam.prepare(coloured(nrng, nc, N) * float(nrng.choice([1.0, 30.0])), kind)
+            nl = int(nrng.randint(2, 6))
+            # --- covariance helper: autocov_vector and crosscov_vector (y in ANOTHER representation)
+            if kind in ar_fam.INT_KINDS:
+                m = {'op': 'ccovi', 'nc': nc, 'nl': nl, 'x': flist(x.reshape(-1)), 'dt': kind}
+                out.append(mk_case(m, 'autocov/dtype/' + kind, cmp_groups(rtol=1e-9)))
+                k2 = ar_fam.INT_KINDS[(ar_fam.INT_KINDS.index(kind) + 1 + rep) % 4]
+                y = ar_fam.prepare(coloured(nrng, nc, N), k2)
+                m = {'op': 'ccovi', 'nc': nc, 'nl': nl, 'x': flist(x.reshape(-1)), 'y': flist(y.reshape(-1)), 'dt': kind, 'dty': k2}
+                out.append(mk_case(m, 'crosscov/dtype/%s+%s' % (kind, k2), cmp_groups(rtol=1e-9)))
+            else:
+                m = {'op': 'acov', 'nc': nc, 'nl': nl, 'x': flist(x.reshape(-1)), 'dt': kind}
+                out.append(mk_case(m, 'autocov/dtype/' + kind, cmp_groups(rtol=cmp_tol)))
+            # --- MAR_est_LWR
+            order = int(nrng.randint(1, 4))
+            if np.linalg.cond(block_toeplitz(direct_autocov(x, order + 1), order)) < COND_MAX:
+                m = {'op': 'mar', 'nc': nc, 'order': order, 'x': flist(x.reshape(-1)), 'dt': kind}
+                out.append(mk_case(m, 'mar/dtype/' + kind, cmp_groups(rtol=1e-8 * ar_fam.tol_factor(kind))))
+            # --- fit_model, fixed and selected order (both rows of one kind; every other time the second row is float64)
+            x2 = ar_fam.prepare(coloured(nrng, 2, int(nrng.choice([128, 200]))) * 25.0, kind)
+            m = {'op': 'fit', 'nc': 2, 'crit': 'bic', 'order': int(nrng.randint(1, 5)), 'maxo': 10, 'x': flist(x2.reshape(-1)), 'dt': kind}
+            if rep % 2 == 1 or kind == 'int32':
+                m['dt2'] = 'f8'
+            out.append(mk_case(m, 'fit/fixed/dtype/' + kind, cmp_groups(n_exact=1, rtol=1e-8 * ar_fam.tol_factor(kind))))
+            if not ar_fam.lowp(kind):       # the selected order of single-precision data may legitimately flip at a near-tie
+                m = {'op': 'fit', 'nc': 2, 'crit': ['bic', 'aic'][rep % 2], 'order': -1, 'maxo': 10, 'x': flist(x2.reshape(-1)), 'dt': kind}
+                out.append(mk_case(m, 'fit/selected/dtype/' + kind, cmp_groups(n_exact=1)))
+        # --- lwr_recursion on covariance stacks in other representations (integer stacks are outside the quantifier: the
+        #     routine's work arrays inherit the dtype and it raises for P >= 2 — noted, not generated)
+        #     big-endian stacks are not generated either: scipy.linalg.inv (1.18) itself misreads non-native byte order
+        for kind in ['float32'] + [k for k in ar_fam.LAYOUT_KINDS if k != 'bigendian']:
+            nc = int(nrng.randint(1, 4))
+            P = int(nrng.randint(1, 5))
+            r = direct_autocov(coloured(nrng, nc, 128), P + 1)
+            if not np.linalg.cond(block_toeplitz(r, P)) < 1e4:
+                continue
+            r = ar_fam.prepare(r, kind)
+            m = {'op': 'lwr', 'nc': nc, 'perm': [int(t) for t in nrng.permutation(nc)], 'r': flist(r.reshape(-1)), 'dt': kind}
+            out.append(mk_case(m, 'lwr/dtype/' + kind, cmp_groups(rtol=1e-8 * ar_fam.tol_factor(kind))))
+        # --- generate_mar with coefficient / covariance arrays in other representations
+        for kind, kc in [('readonly', 'readonly'), ('F', 'F'), ('float32', None), (None, 'int64'), ('strided', 'rowstrided'), ('bigendian', 'bigendian')]:
+            nc = int(nrng.randint(1, 4))
+            A = stable_var(nrng, nc, int(nrng.randint(1, 4)), 0.8)
+            if kc == 'int64':
+                cov = np.diag(nrng.randint(1, 4, nc)).astype(float)
+            else:
+                L = nrng.randn(nc, nc)
+                cov = L.dot(L.T) + 0.2 * np.eye(nc)
+            A = ar_fam.prepare(-A, kind) if kind else -A
+            m = {'op': 'gmar', 'nc': nc, 'a': flist(A.reshape(-1)), 'cov': flist(cov.reshape(-1)), 'N': int(nrng.choice([3, 10, 25])),
+                 'seed': int(nrng.randint(0, 2**31 - 1)), 'dt': kind, 'dtc': kc}
+            out.append(mk_case(m, 'generate_mar/dtype/%s+%s' % (kind or 'f8', kc or 'f8'), cmp_groups(rtol=1e-9 * ar_fam.tol_factor(kind))))
+        # --- the analyzer on integer / single-precision / non-contiguous recordings, re-targeted to another representation
+        for t, (k1, k2) in enumerate([('int32', 'int16'), ('int64', None), ('float32', 'F'), ('strided', 'uint8')]):
+            nproc = 2 + t % 2
+            N = int(nrng.choice([128, 200]))
+            steps = []
+            for kk, kind_step in ((k1, 'construct'), (k2, 'same-shape')):
+                d = coloured(nrng, nproc, N) * 40.0
+                d = ar_fam.prepare(d, kk) if kk else d
+                steps.append({'nproc': nproc, 'Fs': 2.0, 'kind': kind_step, 'data': flist(d.reshape(-1)), 'dt': kk})
+            m = {'op': 'gseq', 'nc': 2, 'crit': 'bic', 'order': int(nrng.randint(1, 4)), 'maxo': 10, 'ij': None, 'steps': steps,
+                 'first': ['model_coef', 'autocov', 'order']}
+            lp = ar_fam.tol_factor(k1, k2)
+            out.append(mk_case(m, 'analyzer/dtype/%s+%s' % (k1, k2 or 'f8'), cmp_tokens(rtol=1e-8 * lp)))
+    return out
+
+
+def option_cases(nrng, big):
+    """L3: the optional arguments in their boundary combinations: explicit order x explicit max_order (smaller than,
+    equal to, larger than the order, None, left at its default), order given as an explicit None, criterion left at its
+    default / AIC with corrected=True bound by the caller, nlags None / default / = N of the covariance helper"""
+    out = []
+    reps = 1 if not big else 5
+    for rep in range(reps):
+        # --- fit_model: fixed order against every kind of max_order
+        for order in ([0, 1, 2, 3, 5, 6, 8] if rep == 0 else [int(t) for t in nrng.randint(0, 9, 6)]):
+            N = int(nrng.choice([128, 200, 256]))
+            x = coloured(nrng, 2, N) * float(nrng.choice([1.0, 1e-3, 100.0]))
+            for maxo in sorted(set([order + 2, order + 1, order, max(order - 2, 0), 1, 0, -1])):
+                m = {'op': 'fit', 'nc': 2, 'crit': 'bic', 'order': order, 'maxo': maxo, 'x': flist(x.reshape(-1))}
+                if maxo == order + 2 and order % 2:
+                    m['crit_default'] = True
+                out.append(mk_case(m, 'fit/fixed/max_order-%s' % ('none' if maxo < 0 else 'le-order' if maxo <= order else 'gt-order'),
+                                   cmp_groups(n_exact=1)))
+            m = {'op': 'fit', 'nc': 2, 'crit': 'bic', 'order': order, 'maxo': 10, 'maxo_default': True, 'crit_default': True, 'x': flist(x.reshape(-1))}
+            out.append(mk_case(m, 'fit/fixed/defaults', cmp_groups(n_exact=1)))
+        # --- selected order: explicit order=None, default criterion, corrected AIC, small max_order (incl. the ValueError outcome)
+        for t in range(8):
+            N = int(nrng.choice([128, 200]))
+            x = coloured(nrng, 2, N) if t % 3 else nrng.randn(2, N)
+            m = {'op': 'fit', 'nc': 2, 'crit': ['aicc', 'bic', 'aicc', 'aic'][t % 4], 'order': -1, 'maxo': int([10, 10, 4, 3, 2, 1, 0, 7][t]),
+                 'x': flist(x.reshape(-1))}
+            if t % 2:
+                m['order_explicit_none'] = True
+            if m['crit'] == 'bic':
+                m['crit_default'] = True
+            if t == 1:
+                m['maxo_default'] = True
+            out.append(mk_case(m, 'fit/selected/%s/options' % m['crit'], cmp_groups(n_exact=1)))
+        # --- GrangerAnalyzer(order, max_order) pairs, one analyzer re-targeted once
+        for t, (order, maxo) in enumerate([(6, 4), (3, 3), (2, 1), (4, -1), (1, 0), (-1, 4), (-1, 3)]):
+            nproc = 2 + t % 2
+            steps = []
+            for u in range(2):
+                d = coloured(nrng, nproc, int(nrng.choice([128, 200]))) if order >= 0 or u == 0 else nrng.randn(nproc, 160)
+                steps.append({'nproc': nproc, 'Fs': 1.0, 'kind': 'construct' if u == 0 else 'other-length', 'data': flist(d.reshape(-1))})
+            m = {'op': 'gseq', 'nc': 2, 'crit': ['bic', 'aic', 'aicc'][t % 3], 'order': order, 'maxo': maxo, 'ij': None, 'steps': steps,
+                 'first': ['order', 'model_coef', 'error_cov']}
+            out.append(mk_case(m, 'analyzer/options/%s' % ('selected' if order < 0 else 'max_order-none' if maxo < 0 else
+                                                           'max_order-le-order' if maxo <= order else 'max_order-gt-order'), cmp_tokens()))
+        # --- covariance helper: nlags None, nlags left out, nlags = N (one product in the last average)
+        for t in range(6):
+            nc = int(nrng.randint(1, 4))
+            N = int(nrng.choice([2, 3, 5, 8, 13]))
+            x = nrng.randn(nc, N) * 3.0 + 0.5
+            m = {'op': 'acov', 'nc': nc, 'nl': N, 'x': flist(x.reshape(-1))}
+            if t % 3 == 0:
+                m['nl_none'] = True
+            elif t % 3 == 1:
+                m['nl_default'] = True
+            if t >= 3:
+                m.update(op='ccovs', y=flist((nrng.randn(nc, N) - 0.2).reshape(-1)), pairs=[[i, j] for i in range(nc) for j in range(nc)])
+            out.append(mk_case(m, 'crosscov/nlags-all' if 'y' in m else 'autocov/nlags-all', cmp_groups(rtol=1e-9)))
+    return out
+
+
+def boundary_cases(nrng, big):
+    """L4: amplitudes from 1e-150 to 1e150 (covariances 1e-300..1e300: the equations are homogeneous, so the coefficient
+    matrices must not change — judged against the same data scaled by an exact power of two) and nearly collinear
+    channels (R(0) positive definite with condition number up to ~1e8)"""
+    out = []
+    reps = 1 if not big else 5
+    for rep in range(reps):
+        for t, amp in enumerate([1e-150, 1e-100, 1e100, 1e150, 1e-60, 1e60]):
+            nc = int(nrng.randint(1, 4))
+            N = int(nrng.choice([64, 100]))
+            base = coloured(nrng, nc, N)
+            x = base * amp
+            pw = 300 if amp < 1 else -300            # an exact rescaling back towards 1
+            m = {'op': 'acov', 'nc': nc, 'nl': int(nrng.randint(1, 5)), 'x': flist(x.reshape(-1))}
+            out.append(mk_case(m, 'autocov/amplitude', cmp_groups(rtol=1e-9, atol=0.0)))
+            order = int(nrng.randint(1, 4))
+            if np.linalg.cond(block_toeplitz(direct_autocov(base, order + 1), order)) < 1e4:
+                m = {'op': 'mar', 'nc': nc, 'order': order, 'x': flist(x.reshape(-1)), 'pow2': pw}
+                out.append(mk_case(m, 'mar/amplitude', cmp_groups(rtol=1e-8, atol=0.0)))
+                r = direct_autocov(base, order + 1) * amp * amp
+                m = {'op': 'lwr', 'nc': nc, 'perm': [int(q) for q in nrng.permutation(nc)], 'r': flist(r.reshape(-1)), 'pow2': 2 * pw}
+                out.append(mk_case(m, 'lwr/amplitude', cmp_groups(rtol=1e-8, atol=0.0)))
+            x2 = coloured(nrng, 2, 128) * amp
+            m = {'op': 'fit', 'nc': 2, 'crit': 'bic', 'order': int(nrng.randint(0, 5)), 'maxo': 10, 'x': flist(x2.reshape(-1))}
+            out.append(mk_case(m, 'fit/fixed/amplitude', cmp_groups(n_exact=1, atol=0.0)))
+            if abs(np.log10(amp)) <= 60:        # beyond that det(ecov) leaves the binary64 range and the criterion is ±inf
+                m = {'op': 'fit', 'nc': 2, 'crit': ['bic', 'aic'][t % 2], 'order': -1, 'maxo': 10, 'x': flist(x2.reshape(-1))}
+                out.append(mk_case(m, 'fit/selected/amplitude', cmp_groups(n_exact=1, atol=0.0)))
+        # --- nearly collinear channels
+        for t in range(4):
+            N = int(nrng.choice([128, 256]))
+            base = coloured(nrng, 2, N)
+            eps = float(nrng.choice([1e-2, 1e-3, 3e-4]))
+            x = np.vstack([base[0], base[0] + eps * base[1]])
+            order = int(nrng.randint(1, 3))
+            r = direct_autocov(x, order + 1)
+            cond = float(np.linalg.cond(block_toeplitz(r, order)))
+            if not cond < 1e9:
+                STATS['skipped_ill_conditioned'] += 1
+                continue
+            rt = 1e-8 * max(1.0, cond * 1e-3)
+            m = {'op': 'mar', 'nc': 2, 'order': order, 'x': flist(x.reshape(-1))}
+            out.append(mk_case(m, 'mar/near-singular', cmp_groups(rtol=rt)))
+            m = {'op': 'fit', 'nc': 2, 'crit': 'bic', 'order': order, 'maxo': 10, 'x': flist(x.reshape(-1))}
+            out.append(mk_case(m, 'fit/fixed/near-singular', cmp_groups(n_exact=1, rtol=rt)))
+    return out
+
+
+def perturb(nrng):
+    """L2 perturbation phase: the same entry points with OTHER option values, objects of the base class and of a
+    subclass, and everything that was handed out overwritten in place (a call that raises here is not this phase's business)"""
+    try:
+        _perturb(nrng)
+    except Exception:  # noqa
+        pass
+
+
+def _perturb(nrng):
+    import histories, warnings
+    import nitime.timeseries as ts
+    warnings.simplefilter('ignore')
+    ar, ut, gr = mods()
+    x = coloured(nrng, 3, 96)
+    held = []
+    for nl in (1, 4, None):
+        held.append(ut.autocov_vector(x, nlags=nl))
+    held.append(ut.crosscov_vector(x, x[::-1].copy(), nlags=3))
+    held.append(ut.autocov_vector(np.round(x * 10).astype('int32'), nlags=2))
+    held.append(ar.MAR_est_LWR(x, 2))
+    held.append(ar.MAR_est_LWR(x[:2], 4))
+    held.append(ar.lwr_recursion(ut.autocov_vector(x, nlags=3).transpose(2, 0, 1)))
+    for kw in (dict(order=3), dict(order=3, max_order=2), dict(max_order=6), dict(criterion=ut.akaike_information_criterion), dict(order=0)):
+        try:
+            held.append(gr.fit_model(x[0], x[1], **kw))
+        except ValueError:
+            pass
+
+    class Sub(gr.GrangerAnalyzer):
+        pass
+    for cls in (gr.GrangerAnalyzer, Sub):
+        G = cls(ts.TimeSeries(x, sampling_rate=2.0), order=2, n_freqs=8)
+        held += [G.order, G.autocov, G.model_coef, G.error_cov, G.causality_xy, G.frequencies]
+        G.set_input(ts.TimeSeries(x[:2, :64] * 3.0, sampling_rate=5.0))
+        held += [G.model_coef, G.error_cov, G.causality_yx]
+        G2 = cls(ts.TimeSeries(x, sampling_rate=1.0), max_order=5, n_freqs=4)
+        try:
+            held += [G2.order, G2.model_coef]
+        except ValueError:
+            pass
+    np.random.seed(5)
+    held.append(ut.generate_mar(-stable_var(nrng, 2, 2, 0.7), np.eye(2), 12))
+    histories.scribble(held)
+
+
+def rerun_cases(nrng, sofar, big):
+    """L2: after all ordinary cases and the perturbation phase, a sample of the ordinary cases is evaluated AGAIN on fresh
+    argument objects: same protocol line, so the implementation must return what the model returns, as before"""
+    perturb(nrng)
+    ops = {}
+    for c in sofar:
+        ops.setdefault((c.meta['op'], c.clause.split('/')[0]), []).append(c)
+    out = []
+    for key in sorted(ops):
+        lst = ops[key]
+        for c in lst[::max(1, len(lst) // (3 if not big else 12))][:3 if not big else 12]:
+            out.append(Case(c.line, run_impl(c.meta), c.clause + '/rerun', cmp=c.cmp, meta=c.meta, nontrivial=False))
     return out
 
 
